@@ -213,3 +213,12 @@ func (l *L2) RefAttrs(tag int) (res string, args bool, ok bool) {
 	}
 	return ev.Result, len(ev.Process.Args) > 0, true
 }
+
+// SendRaw sends one raw line to Read's Audits channel.
+func (l *L2) SendRaw(s string) bool { return l.sendLine(s) }
+
+// Barrier returns once the parse goroutine has finished everything sent before.
+func (l *L2) Barrier() bool { return l.sendLine("") }
+
+// Settle waits briefly for a pending return of Read to become visible.
+func (l *L2) Settle() { l.settle() }
